@@ -170,7 +170,8 @@ def run(res, prop, propfile, corpus, *, entry="VT", use_ctx=False, spec=True, al
     # ok_i is false is reported above as a correspondence break and is not counted as an obligation of this run
     res.obligations += certs_ok
     res.discharged += certs_ok
-    res.coverage["certificates"] = {"structs": nstructs, "certified_equal_to_model": certs_ok}
+    res.coverage["certificates"] = {"structs": nstructs, "certified_equal_to_model": certs_ok,
+                                    "declarations_in_guard_with_documented_parameters": sum(1 for m in meta if results[m["index"]]["kf"] == 0 and results[m["index"]]["hyp"] & 4)}
     res.coverage["distinct_nontrivial"] = len(distinct_obs)
     res.coverage["rule"] = ("one program per synthesized struct, one evaluation per (struct, receiver value); "
                             "distinct_nontrivial = distinct (struct, observed result) pairs")
